@@ -338,4 +338,58 @@ structure Expect where
 def siteJustified (exp : List Expect) (s : SiteF) : Bool :=
   exp.any (fun e => e.file == s.file && e.fn == s.fn && justified e.kind s)
 
+/-! ## Part C: per-connection traces recorded at the real protocol servers
+
+The real rtsp / rtmp / srt / hls servers run against a RECORDING path manager that logs every
+FindPathConf / Describe / AddPublisher / AddReader request of one client connection and answers from a
+permission table read independently of internal/auth.  `admitted` is that independent verdict for the
+request's own (name, action, credentials, IP); `granted` is what the stub answered (like the real
+pathManager it grants SkipAuth requests and never honours SkipAuth on FindPathConf). -/
+
+inductive EvKind | find | describe | addPub | addReader
+deriving DecidableEq, Repr
+
+structure Ev where
+  kind : EvKind
+  name : Bytes
+  publish : Bool
+  skip : Bool
+  admitted : Bool
+  granted : Bool
+  /-- find: identity of the configuration handed out; addPub: identity of ConfToCompare (0 = nil) -/
+  conf : Nat
+deriving DecidableEq, Repr
+
+def Ev.isAttach (e : Ev) : Bool := e.granted && (e.kind == .addPub || e.kind == .addReader)
+
+/-- an earlier request of the same connection that justifies a SkipAuth attach `e`: it carried the
+    credentials (no SkipAuth), was admitted for exactly that name and action, and — for a publisher — it is the
+    FindPathConf whose configuration the attach names in ConfToCompare. -/
+def justifies (f e : Ev) : Bool :=
+  !f.skip && f.admitted && f.granted && f.name == e.name && f.publish == e.publish &&
+  (e.kind != .addPub || (f.kind == .find && e.conf != 0 && e.conf == f.conf))
+
+/-- one event, given the earlier events of its connection.  `secretOK`: the client presented the HLS CDN
+    secret (only then may a reader be attached with SkipAuth and no earlier authenticated request). -/
+def evProblem (secretOK : Bool) (prev : List Ev) (e : Ev) : Option String :=
+  if !e.isAttach then
+    if e.granted && !e.skip && !e.admitted then some "a request that the permission table refuses was granted" else none
+  else if (e.kind == .addPub) != e.publish then some "attach with a Publish flag that does not match the method"
+  else if !e.skip then
+    if e.admitted then none else some "attached with credentials the permission table refuses"
+  else if prev.any (fun f => justifies f e) then none
+  else if secretOK && e.kind == .addReader then none
+  else if e.kind == .addPub && prev.any (fun f => justifies f { e with kind := .addReader }) then
+    some "publisher attached with SkipAuth but ConfToCompare is not the configuration its FindPathConf returned"
+  else some "attached with SkipAuth without an earlier admitted request for exactly that name and action in the same connection"
+
+def checkFrom (secretOK : Bool) (prev : List Ev) : List Ev → Option String
+  | [] => none
+  | e :: rest =>
+    match evProblem secretOK prev e with
+    | some m => some m
+    | none => checkFrom secretOK (prev ++ [e]) rest
+
+def checkTrace (secretOK : Bool) (evs : List Ev) : Option String := checkFrom secretOK [] evs
+
 end MtxVerif.C03
